@@ -7,6 +7,24 @@ BASE_NOTE = ("Trusted: Lean 4.33.0 kernel (axioms propext, Classical.choice, Quo
              "tied to /repo's working tree by running both on the same inputs on every run.")
 
 CHECKS = {
+    "C11": {
+        "category": "proof",
+        "text": "Lean theorems about Model/Splitters.lean (run scanning of the sorted k-mer vector, the second pass with its "
+                "current_len counter, window resets and the right-most-candidate end rule, one determineSplitters for the three "
+                "Rust entry points): singleton/duplicate sets are exactly count=1 / count>=2, disjoint, invariant under contig "
+                "permutation and (by C20's enumerate_spec/canonical_rc, 1<=k<=32) under reverse-complementing any contig; every "
+                "splitter is a singleton and the canonical packing of the k bases ending at its pick position; loop picks are "
+                ">= segment_size apart, at most one end pick after them; segmenting a reference contig with the reference's own "
+                "splitters cuts exactly at the pick positions (self_segmentation), so in the C10 model of "
+                "split_at_splitters_with_size every segment but the first and the last two has >= segment_size + k symbols "
+                "(self_segmentation_segments); "
+                "the first-sample variant reads the leading run only. The model is executed against determine_splitters, "
+                "_streaming and _streaming_first_sample (files written by the harness, PanSN file with later samples) under "
+                "rayon pools of 1/2/4/16 threads; the laws are also evaluated on the real output against a from-scratch "
+                "HashMap count, and the reference is segmented with its own splitters (split_at_splitters_with_size).",
+        "design_ref": "DESIGN.md §5 C11",
+        "technique": "Lean 4 proof over a list model + exhaustive/random set-exact correspondence of three variants x thread counts",
+    },
     "C20": {
         "category": "proof",
         "text": "Lean theorems about Model/Kmer.lean (UInt64 shifts/masks exactly as kmer.rs) for all k in 1..32 and all "
